@@ -686,22 +686,36 @@ theorem int64_eq (z : Int) : int64 z = if i64 z then .ok z else .error .valueErr
 theorem bind_ok_uint64 (x : Int) (r : PyM Int) (h : r = .ok x) : (r >>= uint64) = uint64 x := by
   subst h; rfl
 
-theorem transpiledUint_dec (ds : Text) (h1 : ds ≠ []) (h2 : ds.all isDigit = true) (h3 : ds.length ≤ maxDigits) :
-    transpiledUint ds = uint64 (decVal ds) := by
+/-- the conversion guard added by /repo 50c913c is invisible whenever the pasted text evaluates to what
+the interpreter's conversion gives -/
+theorem transpiledInt_eq (s : Text) (h : (pyIntLiteral (normIntText s) >>= int64) = intOfLit s) :
+    transpiledInt s = intOfLit s := by
+  unfold transpiledInt
+  cases hi : intOfLit s with
+  | ok v => rw [hi] at h; simpa using h
+  | error c => rfl
+theorem transpiledUint_eq (s : Text) (h : (pyIntLiteral (normIntText s) >>= uint64) = uintOfLit s) :
+    transpiledUint s = uintOfLit s := by
+  unfold transpiledUint
+  cases hi : uintOfLit s with
+  | ok v => rw [hi] at h; simpa using h
+  | error c => rfl
+
+theorem pasted_uint_dec (ds : Text) (h1 : ds ≠ []) (h2 : ds.all isDigit = true) (h3 : ds.length ≤ maxDigits) :
+    (pyIntLiteral (normIntText ds) >>= uint64) = uint64 (decVal ds) := by
   obtain ⟨z1, z2, z3, _, z5, z6⟩ := dropZeros_spec ds h2
   have e : normIntText ds = dropZeros ds := by simpa [signText] using normIntText_dec false ds h1 h2
   have p : pyIntLiteral (dropZeros ds) = .ok (decVal (dropZeros ds) : Int) := by
     simpa [signText, signed] using pyIntLiteral_dec false _ z1 z2 z3 (Nat.le_trans (z5 h1) h3)
-  unfold transpiledUint
   exact bind_ok_uint64 _ _ (by rw [e, p, z6])
 
-theorem transpiledUint_hex (ds : Text) (h1 : ds ≠ []) (h2 : ds.all isHex = true) :
-    transpiledUint ([48, 120] ++ ds) = uint64 (hexStrVal ds) := by
+theorem pasted_uint_hex (ds : Text) (h1 : ds ≠ []) (h2 : ds.all isHex = true) :
+    (pyIntLiteral (normIntText ([48, 120] ++ ds)) >>= uint64) = uint64 (hexStrVal ds) := by
   have e : normIntText ([48, 120] ++ ds) = [48, 120] ++ ds := by simpa [signText] using normIntText_hex false ds
   have p : pyIntLiteral ([48, 120] ++ ds) = .ok (hexStrVal ds : Int) := by
     simpa [signText, signed] using pyIntLiteral_hex false ds h1 h2
-  unfold transpiledUint
   exact bind_ok_uint64 _ _ (by rw [e]; exact p)
+
 
 
 /-! ### UTF-8 -/
